@@ -54,3 +54,52 @@ Proof.
   - discriminate.
   - f_equal. apply dec_inj. apply (append_inj_l obj_prefix). exact E.
 Qed.
+
+Lemma prefix_app : forall p s, prefix p (p ++ s) = true.
+Proof.
+  induction p as [|a p IH]; intros s; cbn; [destruct s; reflexivity |].
+  destruct (Ascii.ascii_dec a a); [apply IH | congruence].
+Qed.
+
+Lemma substring_app : forall p s, substring (String.length p) (String.length (p ++ s) - String.length p) (p ++ s) = s.
+Proof.
+  induction p as [|a p IH]; intros s; cbn.
+  - rewrite Nat.sub_0_r. induction s as [|b s IHs]; cbn; [reflexivity | f_equal; exact IHs].
+  - apply IH.
+Qed.
+
+Lemma undec_dec : forall c, undec (dec c) = Some c.
+Proof.
+  intros c. unfold undec. unfold dec at 1. rewrite NilEmpty.usu. rewrite DecimalN.Unsigned.of_to. rewrite String.eqb_refl. reflexivity.
+Qed.
+
+(* a variable whose spelling is the rendering of an invented key HAS that key (so a variable with key KV x is never
+   spelled like an invented key) *)
+Theorem spelled_synthetic : forall tbl x c,
+    (spelling tbl x = subj_prefix ++ dec c -> vk_of tbl x = KS c) /\
+    (spelling tbl x = obj_prefix ++ dec c -> vk_of tbl x = KO c).
+Proof.
+  intros tbl x c. unfold vk_of, key_of_spelling, strip. split; intros E; rewrite E.
+  - rewrite prefix_app, substring_app, undec_dec. reflexivity.
+  - assert (N1 : prefix subj_prefix (obj_prefix ++ dec c) = false) by reflexivity.
+    rewrite N1, prefix_app, substring_app, undec_dec. reflexivity.
+Qed.
+
+(* string equality of the code's keys = key equality of the model *)
+Theorem kstr_inj : forall tbl k k',
+    (forall x, k = KV x -> vk_of tbl x = KV x) -> (forall x, k' = KV x -> vk_of tbl x = KV x) ->
+    (forall x y, k = KV x -> k' = KV y -> spelling tbl x = spelling tbl y -> x = y) ->
+    kstr tbl k = kstr tbl k' -> k = k'.
+Proof.
+  intros tbl k k' G G' D E.
+  destruct k as [x | c | c], k' as [x' | c' | c']; cbn in E.
+  - f_equal. apply (D x x'); auto.
+  - exfalso. pose proof (proj1 (spelled_synthetic tbl x c') E) as X. rewrite (G x eq_refl) in X. discriminate.
+  - exfalso. pose proof (proj2 (spelled_synthetic tbl x c') E) as X. rewrite (G x eq_refl) in X. discriminate.
+  - exfalso. pose proof (proj1 (spelled_synthetic tbl x' c) (eq_sym E)) as X. rewrite (G' x' eq_refl) in X. discriminate.
+  - f_equal. apply dec_inj. apply (append_inj_l subj_prefix). exact E.
+  - discriminate.
+  - exfalso. pose proof (proj2 (spelled_synthetic tbl x' c) (eq_sym E)) as X. rewrite (G' x' eq_refl) in X. discriminate.
+  - discriminate.
+  - f_equal. apply dec_inj. apply (append_inj_l obj_prefix). exact E.
+Qed.
